@@ -1,5 +1,6 @@
 import BobEM.Lemmas.GmmStats
 import BobEM.Lemmas.GmmDensity
+import BobEM.Lemmas.GmmEM
 
 /-!
 # C02 — GMM statistics are responsibility-weighted moments, additive over any split
@@ -88,6 +89,28 @@ theorem C02_add_refuses_mismatch (a b : RawStats ℝ) :
     · simp [h] at hs
     · simp only [h, if_false, Option.some.injEq] at hs
       subst hs; exact ⟨rfl, rfl, rfl, rfl, rfl⟩
+
+/-- responsibilities only distribute a sample over the components, they never create or lose mass:
+for any per-sample quantity `f`, the responsibility-weighted sums over all components add up to the
+plain sum of `f` over the samples -/
+theorem C02_weighted_sums_conserve (p : Params (C+1) D ℝ) (xs : List (Fin D → ℝ)) (f : (Fin D → ℝ) → ℝ) :
+    ∑ c, (xs.map fun x => resp p x c * f x).sum = (xs.map f).sum := by
+  induction xs with
+  | nil => simp
+  | cons x xs ih =>
+    simp only [List.map_cons, List.sum_cons, Finset.sum_add_distrib, ih, ← Finset.sum_mul, resp_sum_one, one_mul]
+
+/-- conservation laws of the accumulated statistics: summed over the components, the first-order
+statistics are the column sums of the data and the second-order statistics the column sums of
+squares, whatever the machine — a statistic that drops, duplicates or re-weights a sample breaks one
+of them -/
+theorem C02_moments_sum_to_data (p : Params (C+1) D ℝ) (xs : List (Fin D → ℝ)) :
+    (∀ d, ∑ c, (eStep p xs).sumPx c d = (xs.map fun x => x d).sum) ∧
+    (∀ d, ∑ c, (eStep p xs).sumPxx c d = (xs.map fun x => x d * x d).sum) := by
+  obtain ⟨-, -, h1, h2, -⟩ := C02_stats_are_moments p xs
+  refine ⟨fun d => ?_, fun d => ?_⟩
+  · simp only [h1]; exact C02_weighted_sums_conserve p xs fun x => x d
+  · simp only [h2]; exact C02_weighted_sums_conserve p xs fun x => x d * x d
 
 /-- non-vacuity of the split theorem: three blocks, one of them empty -/
 example (p : Params 2 1 ℝ) (a b c : Fin 1 → ℝ) :
